@@ -8,6 +8,7 @@ import (
 	"fmt"
 	"strings"
 	"sync"
+	"sync/atomic"
 
 	"verif/harness/dsx"
 	"verif/harness/hx"
@@ -306,6 +307,7 @@ func RunMany(c *hx.Ctx, prop string, n, par int, c10 bool) {
 	}
 	jobs := make(chan job)
 	var wg sync.WaitGroup
+	var ran, dropped int64 // c10t9: histories executed / dropped as timing skew after three runs
 	for w := 0; w < par; w++ {
 		wg.Add(1)
 		go func() {
@@ -329,8 +331,10 @@ func RunMany(c *hx.Ctx, prop string, n, par int, c10 bool) {
 					}
 					c.Count("skew.rerun")
 				}
+				atomic.AddInt64(&ran, 1)
 				if res.Skewed {
 					c.Count("skew.dropped")
+					atomic.AddInt64(&dropped, 1)
 					continue
 				}
 				c.Emit(prop, "hist "+j.cfg.Tokens()+" "+res.Sched, res.Out)
@@ -527,7 +531,15 @@ func RunMany(c *hx.Ctx, prop string, n, par int, c10 bool) {
 	}
 	close(jobs)
 	wg.Wait()
+	// c10t9: dropping is bounded — a run that had to discard more than histSkewShare % of its histories (each after three
+	// attempts) says too little about the code: it ends as "environment too slow", never as a verdict
+	if d, r := atomic.LoadInt64(&dropped), atomic.LoadInt64(&ran); d > 3 && d*100 > histSkewShare*r {
+		c.TooSlow(fmt.Sprintf("%s hist: %d of %d histories dropped as timing skew (> %d %%)", prop, d, r, histSkewShare))
+	}
 }
+
+// histSkewShare: percent of the histories of one RunMany that may be dropped as skew.
+const histSkewShare = 2
 
 // ModelCheck emits `mc` cases: the driver explores EVERY schedule of the model for the configuration up to the state
 // limit and evaluates the executable invariant (all clauses of Inv), "no silent outcome", "the global timer completes a
